@@ -15,6 +15,21 @@ CHECKS = {
          "Generated programs inside the order-insensitive fragment are executed in both modes on the same trees and globals; strict Ok must imply lazy Ok with an isomorphic graph, a strict failure with an order-independent cause must imply a lazy failure, and neither may panic. Exploration is the right level: the two interpreters duplicate their logic, and a differential over generated programs reaches the unsampled interactions; it cannot prove equivalence.",
          "Trusted: the generator's enforcement of the fragment (harness/src/gen.rs), graph isomorphism check (budgeted; exhausted budget counts as inconclusive), tree-sitter, proptest.",
          "DESIGN.md §5 C02"),
+ "C13": ("exploration",
+         "reference-model property testing of the stdlib (generated argument tuples vs an independent model of the documented contracts)",
+         "Every call Functions::stdlib().call(name, args) over generated argument tuples (every Value variant, boundary integers, brace / regex / non-ASCII strings, every kind of syntax node incl. root, anonymous and ERROR nodes) is compared with a model written from src/reference/functions.rs: same value, or an error exactly where the contract is broken, never a panic. Exploration is the right level: contracts are stated per function over all values, the functions are small and pure, and a model differential at ~600k calls per quick run reaches the boundary classes.",
+         "Trusted: the stdlib model (harness/src/stdlib.rs), regex crate (replace is defined by it), tree-sitter node accessors. Sets containing syntax nodes are not generated.",
+         "DESIGN.md §5 C13"),
+ "C14": ("exploration",
+         "round-trip property testing: serialise, parse with an own strict JSON parser, decode, compare with the public-API observation; own pretty renderer",
+         "Graphs built through the public API and graphs produced by executing generated programs are serialised; the JSON must be valid, structurally exact (ids, edge order, no duplicate keys or set elements) and decode to exactly what the in-memory API reports; pretty_print must equal an independent rendering. Exploration is the right level for an encoder over an unbounded value space.",
+         "Trusted: the harness JSON parser and decoder (harness/src/rawjson.rs, props/c14.rs), serde_json as the serialiser back end. Pretty form compared only when attribute names are identifiers and no set holds two syntax-node-bearing elements (address-ordered).",
+         "DESIGN.md §5 C14"),
+ "C18": ("exploration",
+         "independent recomputation (recursive Node::child walk) over fault-injected sources, incl. cross-thread moves and Display totality",
+         "Sources with 0-6 injected syntax faults are parsed; first/all/into_first/into_all must report exactly the outermost ERROR and MISSING nodes in document order (the owning variants after being moved to another thread) and both Display forms must return and cite line and column. Exploration is the right level: trees are an unbounded input space and the oracle is a ten-line recursive walk.",
+         "Trusted: tree-sitter's Node API (is_error, is_missing, child). Thread moves exercise Send only in the schedules the OS produces.",
+         "DESIGN.md §5 C18"),
  "C17": ("exploration",
          "stateful model-based property testing (proptest-driven op sequences vs BTreeMap models)",
          "Generated operation histories (<=200 ops, biased to spill the 8-slot inline edge vector, repeat sinks and conflict attributes) are run against the real containers and a BTreeMap model; every return value and periodic full scans are compared. Exploration is the right level: the contract is over all histories of a small pure data structure, where a model differential finds ordering/spill/overwrite slips quickly; it does not prove absence.",
